@@ -27,6 +27,7 @@ type SecurityAdapters struct {
 	securityChain *ports.SecurityChain
 	logger        logger.StyledLogger
 	rateLimits    config.ServerRateLimits
+	maxBodySize   int64
 }
 
 // CreateChainMiddleware creates middleware that applies the full security chain with enhanced logging
@@ -62,6 +63,12 @@ func (s *SecurityAdapters) enforce(next http.Handler) http.Handler {
 				s.writeRejection(w, result, err)
 				return
 			}
+		}
+
+		// The chain can only judge a declared Content-Length. A chunked body has none, so cap
+		// what downstream handlers are able to read.
+		if s.maxBodySize > 0 && r.Body != nil {
+			r.Body = http.MaxBytesReader(w, r.Body, s.maxBodySize)
 		}
 
 		next.ServeHTTP(w, r)
@@ -158,6 +165,7 @@ func NewApplication(
 		securityChain: securityChain,
 		logger:        logger,
 		rateLimits:    cfg.Server.RateLimits,
+		maxBodySize:   cfg.Server.RequestLimits.MaxBodySize,
 	}
 
 	// Create route registry
